@@ -54,6 +54,8 @@ def establishes(node, truth, holds):
         return establishes(n["e"], not truth, holds)
     if n.get("k") == "call" and n.get("opc") and n.get("f", "").endswith("operator!") and len(n.get("a", [])) == 1:
         return establishes(n["a"][0], not truth, holds)
+    if n.get("k") == "call" and n.get("f") == "__builtin_expect" and n.get("a"):
+        return establishes(n["a"][0], truth, holds)       # LIKELY(x) / UNLIKELY(x) = __builtin_expect(!!(x), k)
     if n.get("k") == "bin" and n.get("op") in ("&&", "||"):
         conj = (n["op"] == "&&") == truth
         a, b = establishes(n["x"], truth, holds), establishes(n["y"], truth, holds)
